@@ -24,4 +24,25 @@ CHECKS = {
          '(hopeful->elected, hopeful->defeated, QPQ restart only), pending-flag discipline, withdrawn immutability, '
          'elected <= seats, elected + continuing electable >= fillable seats, monotone rounds. ~600k transitions per quick run.',
     note='QPQ restart applied virtually at each round action following a defeat because re-election within the restart round is invisible in snapshots.'),
+ 'C04': dict(level='exploration', ref='DESIGN.md 3/C04',
+    technique='runtime monitoring: offline checker over the traced history recomputing every recorded quota from raw ballots/votes and checking quota-holding predicates at exclusion pre-states',
+    text='For every snapshot of every generated count the recorded quota is recomputed with the prescribed formula (exact / truncated+ulp / '
+         'floor+1; Meek family from the recorded votes, which must equal the votes still credited right after a distribution; QPQ from the live '
+         'ballots); at the pre-state of every exclusion neither the excluded nor any other hopeful candidate may hold the quota (mpls certain-loser '
+         'step and write-ins excepted); every hopeful seen holding the quota must end elected. Workload weighted to ballot totals divisible by '
+         'seats+1 and tallies landing on the quota.',
+    note='Guarded with guard digits is treated as exact (strict >, quota truncated at p+g). Pre-state rules per DESIGN 2.1. QPQ: exclusion clauses only (one election per stage).'),
+ 'C06': dict(level='exploration', ref='DESIGN.md 3/C06',
+    technique='runtime monitoring: hook invariant over live ballots (position, raw weight) and candidates at every recorded action, plus bracketing checks across each surplus/exclusion transfer',
+    text='At every recorded action of every generated Gregory-family count: tally == exact sum of standing ballot values for every hopeful/pending '
+         'candidate; no ballot has passed over a hopeful candidate or stands on an already-transferred one; weights within [0,1] and non-increasing. '
+         'Across each surplus transfer each re-weighted ballot lies in (w*s/v - 2ulp, w*s/v] (exact under rational), other ballots are untouched and '
+         'the elected tally equals the quota; across exclusion transfers no weight changes. ~100k re-weightings per quick run, chains up to 6 deep.',
+    note='"first candidate not yet transferred" weakened to "no earlier-ranked hopeful and current candidate not yet transferred" because transfer() must skip elected-pending candidates.'),
+ 'C07': dict(level='exploration', ref='DESIGN.md 3/C07',
+    technique='runtime monitoring: offline checker over the traced history (lowest / sure-loser / largest-surplus predicates, tie logging and tie order, Scottish prior-stage rule) + relational monitor over two executions with different tie orders',
+    text='Every exclusion group of every generated count is judged against its pre-state; every one-at-a-time surplus choice must be the largest; every tie '
+         'must be logged with the right tied set and resolved by tie order (Scotland: most recent differing stage, then lot), and no tie may be logged without '
+         'one. Each profile is re-counted with another tie order; tie-free records must be identical in actions, raw snapshots, report, dump and json.',
+    note='Exclusions whose candidates differ by less than twice the guarded tolerance are not evaluated (non-transitive comparison). Scottish shared-extreme sets: any member accepted.'),
 }
